@@ -8,6 +8,18 @@ Streams
   D  Datum.to_units over unit pairs and float / Decimal / array payloads
   E  Datum validation (must_be_numerical) kinds
   K  key set and order of both tables (translator cross-check)
+  S  call sequences: each sequence runs in its own pristine fork of this process (taken before the
+     first lookup).  Non-lookup calls — write_c_header (both sets, live singleton / newly constructed /
+     deepcopy / shallow copy, default and explicit filler), string_representation, str/repr,
+     construction of further instances, reading calls on a returned Datum (to_units, dict, str, copy),
+     guess_connectivity (the in-library client of covalentradii.get(missing=...)), the periodic-table and
+     constants header/listing writers — are followed by (and interleaved with) lookups of EVERY element
+     row under a random alias form, every special label and non-elements, on both sets, on the live
+     singletons and on a secondary instance; plus sequences of repeated lookups of the same few arguments
+     with all option combinations in random order.  Every lookup is judged by the same oracle clauses as
+     in stream A (the oracle reads the data files, never the live table) and compared with the stateless
+     Lean model (licensed by Radii.get_after_calls); failing sequences are shrunk (ddmin, re-executed in
+     fresh forks) to a minimal list of calls that replays in a fresh process.
 """
 from __future__ import annotations
 
@@ -27,7 +39,7 @@ import gen_periodic  # noqa: E402
 import gen_radii  # noqa: E402
 
 PROPERTY = "C17"
-LEAN_TARGETS = ["QcelVerif.Props.C17", "QcelVerif.Props.C17Units", "QcelVerif.Driver.C17"]
+LEAN_TARGETS = ["QcelVerif.Props.C17", "QcelVerif.Props.C17Units", "QcelVerif.Props.C17Session", "QcelVerif.Driver.C17"]
 DRIVER = "QcelVerif/Driver/C17.lean"
 THEOREMS = [
     ("QcelVerif.Radii.radius_alias_invariant", "ANY periodic table, ANY radius table: if to_E(a) = E and a is not itself a different exact label, get(a, ...) = lookup-by-key(E, ...) for every return_tuple/missing/unit factor"),
@@ -52,6 +64,11 @@ THEOREMS = [
     ("QcelVerif.Radii.missing_contract", "ANY tables: identifier resolved but no entry -> DataUnavailableError when missing is None or return_tuple, else exactly the caller's fallback"),
     ("QcelVerif.Radii.not_element", "ANY tables: not an exact label and to_E fails -> NotAnElementError (never another species' radius, never the fallback)"),
     ("QcelVerif.Radii.error_kinds", "ANY tables: get fails only as NotAnElement (nothing identifies the argument), DataUnavailable (identifier without entry) or by a failing unit conversion"),
+    ("QcelVerif.Radii.calls_preserve_table", "session model (table threaded as state through get / write_c_header / string_representation / str): after ANY sequence of calls with ANY options the table is the loaded one"),
+    ("QcelVerif.Radii.get_after_calls", "ANY tables, ANY history of calls: a lookup answers exactly what the stateless get answers on the loaded table (this licenses comparing lookups made after call sequences with the stateless driver)"),
+    ("QcelVerif.Radii.replies_history_free", "every reply of a session equals the reply of that call alone on the loaded table: order, repetition and earlier options cannot matter"),
+    ("QcelVerif.Radii.header_filler_iff_untabulated", "write_c_header prints the caller's filler for an element exactly when it has no entry (and prints the stored Datum otherwise)"),
+    ("QcelVerif.Radii.missing_contract_after_header", "ANY tables: after a header write with ANY filler an untabulated identifier still raises DataUnavailable / returns the caller's own fallback, never the filler"),
 ]
 TRANSLATORS = [gen_periodic.main, gen_radii.main]
 TRUSTED_BASE = [
@@ -62,12 +79,16 @@ TRUSTED_BASE = [
     "the unit factor is a PARAMETER of the model: constants.conversion_factor (pint; C03's territory) is called once per unit pair on the implementation and its double is handed to the model; the oracle separately bounds it against exact decimal scales (pm 100, nm 1/10, m 1e-10, bohr 1/bohr2angstroms) to 1e-14 relative",
     "CPython float(Decimal) and int/int true division assumed correctly rounded (the former re-checked against the exact decimal on every value)",
     "the oracle's own re-reading of the two data files and of the periodic table arrays",
+    "Model/RadiiSession.lean: the public non-lookup methods are modelled as returning the table they were given (no assignment to self.cr / self.vdwr or to a stored Datum exists in covalent_radii.py:73-186, vanderwaals_radii.py:59-170); tied by the call-sequence stream, whose lookups after arbitrary call histories are compared with the stateless model",
+    "call sequences run in os.fork() images of the harness process taken before its first lookup (import of qcelemental done, nothing called); a recorded sequence is replayed in-process by a fresh `./check --replay` process",
 ]
 ASSUMPTIONS = [
     "atom is an int or an ASCII str (documented Union[int, str]); return_tuple is a bool; missing is None or a finite float",
     "units in {bohr, angstrom, pm, nm, m} or omitted; other pint expressions are C03's",
     "results are in the normal binary64 range (no overflow/subnormals), true of all radii in all five units",
     "Datum payloads: finite float, finite Decimal, 1-d float64 array",
+    "call sequences consist of public calls only (get, write_c_header, string_representation, str/repr, construction / copy / deepcopy of a radius set, reading methods of a returned Datum, molutil.guess_connectivity, periodic_table.write_c_header, constants.string_representation, physical_constants write_c_header); a caller assigning into the public dicts `cr` / `vdwr` or forcing attributes of a frozen Datum is outside; the content of the written headers/listings is not C17's subject (only what the calls leave behind is)",
+    "a secondary instance of a radius set (constructed with the same context name, or copied from the singleton) is held to the same clauses as the singleton",
 ]
 RULE = (
     "exhaustive: every element row (Z=0..117, tabulated or not) x alias forms {int Z, str Z, symbol, name, nuclide labels of the "
@@ -75,12 +96,21 @@ RULE = (
     "x units {omitted, bohr, angstrom, pm, nm, m} x missing {None, float} x return_tuple {False, True} x both sets; every special "
     "label exactly and in non-label spellings; non-elements by construction; random ASCII; Datum.to_units over all ordered unit "
     "pairs (and None) x float/Decimal/array payloads; Datum validation kinds. A case is distinct by (set, argument, return_tuple, "
-    "units, missing) and non-trivial when the argument is not the canonical table key or the outcome is an error or the fallback."
+    "units, missing) and non-trivial when the argument is not the canonical table key or the outcome is an error or the fallback. "
+    "Call sequences (each in a pristine fork): one sequence per kind of non-lookup call {write_c_header x set x filler {default, 2.0, 0.0, 3.25} "
+    "on the singleton; new instance by {constructor, deepcopy, copy} alone / + write_c_header / + string_representation on it; "
+    "string_representation; str; Datum reading calls; guess_connectivity; periodic-table / constants writers}, 20 (quick) / 200 (thorough) "
+    "random sequences of 2-6 such calls interleaved with partial sweeps, 6 / 50 sequences of repeated lookups of the same arguments with all "
+    "24 option combinations in random order; every sequence ends with a sweep over all 118 element rows (random alias form; untabulated "
+    "elements both with missing=None and with a fallback) x both sets x {singleton, secondary instance}, all special labels, non-elements. "
+    "A sequence case is distinct by (non-lookup calls so far, set, target, argument, return_tuple, units, missing given or not)."
 )
 LEVEL_TEXT = (
     "proof about the model for all inputs (alias invariance, missing/not-element contract, unit algebra as exact rounding identities) "
     "plus kernel evaluation of the whole generated tables; the model is tied to the code by exhaustive correspondence over the "
-    "periodic table x alias forms x units; the unit factor itself is taken from the implementation (partial: C03 owns it)"
+    "periodic table x alias forms x units; the unit factor itself is taken from the implementation (partial: C03 owns it); "
+    "independence of a lookup from the calls made before it is a theorem of the session model and is tied to the code by sampled call "
+    "sequences over all public entry points of the radius objects (sampled, not exhaustive: orders and options are drawn from VERIF_SEED)"
 )
 TECHNIQUE = "Lean 4 proof (structural + decide +kernel over generated tables) + translator + exhaustive differential correspondence + independent oracle"
 
@@ -167,12 +197,12 @@ class Impl:
         self._cf[(setname, units)] = ";".join(items) if items else "-"
         return self._cf[(setname, units)]
 
-    def get(self, setname, arg, rt, units, missing):
+    def get(self, setname, arg, rt, units, missing, obj=None):
         kw = {"return_tuple": rt, "missing": missing}
         if units is not None:
             kw["units"] = units
         try:
-            return ("ok", self.obj[setname].get(arg, **kw))
+            return ("ok", (self.obj[setname] if obj is None else obj).get(arg, **kw))
         except Exception as e:  # noqa
             return ("err", err_class(e))
 
@@ -552,15 +582,454 @@ def check_keys(impl: Impl, ex: Expect, out: Outcome, setname, model_line):
         out.mismatches.append(Finding("mismatch", rep, observed=ci, expected=model_line, detail="table keys/order: implementation vs Lean model"))
 
 
+# ---------------------------------------------------------------------------------------
+# S: call sequences.  A lookup must be a function of its arguments alone: whatever public operation
+# of the radius objects (or of their neighbours) ran before it in the same process, the property's
+# clauses still hold for it.  Every sequence is executed in a PRISTINE process image (a fork taken
+# before this process has made a single lookup), so a recorded sequence replays exactly in a fresh
+# `./check C17 --replay` process.
+
+TABLE_ATTR = {"c": "cr", "v": "vdwr"}
+SEQ_ITEMISED = 4  # violations per run that are shrunk and itemised (the rest are counted)
+FRESH_HOW = ("ctor", "deepcopy", "copy")
+SEQ_NONELEMENTS = [-1, 118, 200, "Xx", "Qq", "Jj", "", "H8", "4He", "C_sp4", "Fe_midspin", "Hydroge", "1.0", "sp3", "c_SP3", "Mn_"]
+SEQ_SYMBOL_POOL = ["H", "C", "N", "O", "Fe", "Zn", "U", "Ru", "X", "He", "Kr", "Cu", "Mn", "Co", "Og", "Am", "D", "kr84", "c13", "Xx", "ghost"]
+
+
+class Session:
+    """The live singletons plus, per sequence, one secondary instance of each radius set."""
+
+    def __init__(self, impl: Impl):
+        self.impl = impl
+        self.fresh = {}
+
+    def make(self, setname, how):
+        import copy
+
+        live = self.impl.obj[setname]
+        if how == "ctor":
+            self.fresh[setname] = type(live)(live.name)
+        elif how == "deepcopy":
+            self.fresh[setname] = copy.deepcopy(live)
+        elif how == "copy":
+            self.fresh[setname] = copy.copy(live)
+        else:
+            raise ValueError(how)
+
+    def target(self, setname, which):
+        if which == "live":
+            return self.impl.obj[setname]
+        if which != "fresh":
+            raise ValueError(which)
+        if setname not in self.fresh:
+            self.make(setname, "ctor")
+        return self.fresh[setname]
+
+
+def disturb(impl: Impl, ses: Session, st, tmpdir, n):
+    """One non-lookup call.  Its own result is not C17's business; only what it leaves behind is."""
+    import copy
+    import os
+
+    qcel = impl.qcel
+    do = st["do"]
+    path = os.path.join(tmpdir, f"out{n}.h")
+    if do == "new":
+        ses.make(st["set"], st["how"])
+        return
+    if do in ("wch", "strrep", "str", "datum"):
+        obj = ses.target(st["set"], st.get("target", "live"))
+    if do == "wch":
+        if st["missing"] is None:
+            obj.write_c_header(filename=path)
+        else:
+            obj.write_c_header(path, missing=st["missing"])
+    elif do == "strrep":
+        obj.string_representation()
+    elif do == "str":
+        str(obj), repr(obj)
+    elif do == "datum":
+        d = obj.get(st["arg"], return_tuple=True)
+        for f in (lambda: d.to_units(st["units"]), lambda: d.to_units(), lambda: d.dict(), lambda: str(d), lambda: repr(d),
+                  lambda: copy.deepcopy(d), lambda: d.copy(), lambda: hash(d.data), lambda: d == d):
+            try:
+                f()
+            except Exception:  # noqa — a reading call that raises is not a C17 matter
+                pass
+    elif do == "conn":
+        syms = st["symbols"]
+        geom = [[st["spacing"] * i, 0.3 * (i % 3), 0.0] for i in range(len(syms))]
+        qcel.molutil.guess_connectivity(syms, geom, threshold=st["threshold"])
+    elif do == "pt_header":
+        from qcelemental import periodic_table
+
+        periodic_table.write_c_header(path)
+    elif do == "const_repr":
+        qcel.constants.string_representation()
+    elif do == "const_header":
+        from qcelemental.physical_constants import context as pc_context
+
+        pc_context.write_c_header(st["context"], path)
+    else:
+        raise ValueError(f"unknown step {do!r}")
+
+
+def exec_steps(impl: Impl, ex: Expect, steps):
+    """Run a sequence in THIS process; one record per lookup / keys step, and per non-lookup call that raised."""
+    import contextlib
+    import io
+    import tempfile
+
+    ses = Session(impl)
+    recs = []
+    with tempfile.TemporaryDirectory(prefix="c17seq") as td, contextlib.redirect_stdout(io.StringIO()):
+        for i, st in enumerate(steps):
+            do = st["do"]
+            if do == "get":
+                try:
+                    obj = ses.target(st["set"], st.get("target", "live"))
+                except Exception as e:  # noqa — the secondary instance cannot be built
+                    recs.append({"i": i, "ci": "err other:" + type(e).__name__, "bad": [["oracle:error_class", f"constructing the radius set raised {type(e).__name__}: {e}"[:300]]]})
+                    continue
+                res = impl.get(st["set"], st["arg"], st["rt"], st["units"], st["missing"], obj=obj)
+                recs.append({"i": i, "ci": canon(res), "bad": [list(b) for b in oracle_get(impl, ex, st, res)]})
+            elif do == "keys":
+                try:
+                    keys = list(getattr(ses.target(st["set"], st.get("target", "live")), TABLE_ATTR[st["set"]]).keys())
+                    recs.append({"i": i, "ci": "ok " + ",".join(xhex(k) if isinstance(k, str) else "?" + repr(k) for k in keys), "bad": []})
+                except Exception as e:  # noqa
+                    recs.append({"i": i, "ci": "err other:" + type(e).__name__, "bad": []})
+            else:
+                try:
+                    disturb(impl, ses, st, td, i)
+                except Exception as e:  # noqa
+                    recs.append({"i": i, "raised": f"{type(e).__name__}: {e}"[:200]})
+    return recs
+
+
+def run_forked(ctx: Ctx, impl: Impl, ex: Expect, episodes, jobs=None):
+    """exec_steps for every episode, each in its own fork of the (still pristine) current process."""
+    import json
+    import os
+    import traceback
+
+    jobs = jobs or max(2, min(8, (os.cpu_count() or 4) // 2))
+    ctx._seq_batch = getattr(ctx, "_seq_batch", 0) + 1
+    results = [None] * len(episodes)
+    pending = list(enumerate(episodes))
+    running = {}
+    while pending or running:
+        while pending and len(running) < jobs:
+            idx, steps = pending.pop(0)
+            path = ctx.work / f"seq.{ctx._seq_batch}.{idx}.json"
+            sys.stderr.flush()
+            pid = os.fork()
+            if pid == 0:
+                code = 3
+                try:
+                    dn = os.open(os.devnull, os.O_WRONLY)
+                    os.dup2(dn, 1)
+                    path.write_text(json.dumps(exec_steps(impl, ex, steps)))
+                    code = 0
+                except BaseException:  # noqa
+                    traceback.print_exc()
+                finally:
+                    sys.stderr.flush()
+                    os._exit(code)
+            running[pid] = (idx, path)
+        pid, status = os.wait()
+        if pid not in running:
+            continue
+        idx, path = running.pop(pid)
+        if status != 0 or not path.exists():
+            raise RuntimeError(f"call-sequence worker for episode {idx} ended with status {status}")
+        results[idx] = json.loads(path.read_text())
+        path.unlink()
+    return results
+
+
+def seq_fallback(rng):
+    return rng.choice([4.0, 2.0, 0.0, -1.5, 1e-3, 123.456, 1.8, 7.25, rng.uniform(0.1, 10.0), float(rng.randint(1, 9))])
+
+
+def seq_combo(rng, rt=None, missing="any"):
+    rt = rng.random() < 0.4 if rt is None else rt
+    if missing == "any":
+        missing = seq_fallback(rng) if rng.random() < 0.5 else None
+    return rt, rng.choice([None] + UNITS), missing
+
+
+def seq_alias(rng, ex: Expect, z, sym, name):
+    k = rng.randrange(6)
+    if k == 0:
+        return int(z)
+    if k == 1:
+        return str(int(z))
+    if k == 2:
+        return rng.choice([sym, sym.lower(), sym.upper()])
+    if k == 3:
+        return rng.choice([name, name.lower(), name.upper(), mixed(rng, name)])
+    if k == 4:
+        labs = ex.nuclides.get(sym) or [sym]
+        return rng.choice([str.lower, str.upper, str])(rng.choice(labs))
+    return sym
+
+
+def seq_get(setname, target, arg, expect, rt, units, missing):
+    return {"do": "get", "set": setname, "target": target, "arg": arg, "rt": rt, "units": units, "missing": missing, "expect": list(expect)}
+
+
+def seq_sweep(rng, ex: Expect, targets, frac=1.0):
+    """Lookups covering every element row (one random alias form each), every special label and some
+    non-elements, on both sets; untabulated elements get both the raising and the fallback form."""
+    out = []
+    for z, sym, name in ex.elements:
+        for setname in SETS:
+            if frac < 1.0 and rng.random() > frac:
+                continue
+            tg = rng.choice(targets)
+            if ex.element_text(setname, sym) is not None:
+                rt, u, ms = seq_combo(rng)
+                out.append(seq_get(setname, tg, seq_alias(rng, ex, z, sym, name), ("element", sym), rt, u, ms))
+            else:
+                rt, u, _ = seq_combo(rng)
+                out.append(seq_get(setname, tg, seq_alias(rng, ex, z, sym, name), ("element", sym), rt, u, None))
+                rt, u, _ = seq_combo(rng, rt=rng.random() < 0.15)
+                out.append(seq_get(setname, rng.choice(targets), seq_alias(rng, ex, z, sym, name), ("element", sym), rt, u, seq_fallback(rng)))
+    for setname in SETS:
+        for lab in ex.rows[setname]:
+            if ex.is_special(setname, lab) and (frac >= 1.0 or rng.random() < frac):
+                rt, u, ms = seq_combo(rng)
+                out.append(seq_get(setname, rng.choice(targets), lab, ("label", lab), rt, u, ms))
+        for a in rng.sample(SEQ_NONELEMENTS, max(1, int(5 * frac))):
+            if isinstance(a, str) and a in ex.rows[setname]:
+                continue
+            rt, u, ms = seq_combo(rng)
+            out.append(seq_get(setname, rng.choice(targets), a, ("nonelement", None), rt, u, ms))
+    rng.shuffle(out)
+    return out
+
+
+def seq_keys(targets):
+    return [{"do": "keys", "set": s, "target": t} for s in SETS for t in targets]
+
+
+def seq_disturber(rng, ex: Expect, allow_fresh=True):
+    """A random non-lookup call (possibly preceded by the creation of a secondary instance)."""
+    setname = rng.choice(SETS)
+    target = "fresh" if allow_fresh and rng.random() < 0.35 else "live"
+    k = rng.choice(["wch", "wch", "wch", "strrep", "str", "new", "datum", "conn", "pt_header", "const_repr", "const_header"])
+    if k == "wch":
+        return {"do": "wch", "set": setname, "target": target, "missing": rng.choice([None, 2.0, 0.0, 1.5, 9.99, round(rng.uniform(0.5, 5.0), 3)])}
+    if k in ("strrep", "str"):
+        return {"do": k, "set": setname, "target": target}
+    if k == "new":
+        return {"do": "new", "set": setname, "how": rng.choice(FRESH_HOW)}
+    if k == "datum":
+        tab = [sym for _, sym, _ in ex.elements if ex.element_text(setname, sym) is not None]
+        arg = rng.choice(tab + [l for l in ex.rows[setname]])
+        return {"do": "datum", "set": setname, "target": target, "arg": arg, "units": rng.choice(UNITS)}
+    if k == "conn":
+        return {"do": "conn", "symbols": [rng.choice(SEQ_SYMBOL_POOL) for _ in range(rng.randint(2, 7))], "spacing": rng.choice([1.2, 2.0, 3.5]), "threshold": rng.choice([1.2, 1.0, 1.6])}
+    if k == "const_header":
+        return {"do": "const_header", "context": rng.choice(["CODATA2014", "CODATA2018"])}
+    return {"do": k}
+
+
+def seq_all_disturbers(ex: Expect):
+    """Every kind of non-lookup call once, as (setup steps, targets to probe afterwards)."""
+    out = []
+    for s in SETS:
+        for ms in (None, 2.0, 0.0, 3.25):
+            out.append(([{"do": "wch", "set": s, "target": "live", "missing": ms}], ["live", "fresh"]))
+        for how in FRESH_HOW:
+            out.append(([{"do": "new", "set": s, "how": how}], ["live", "fresh"]))
+            out.append(([{"do": "new", "set": s, "how": how}, {"do": "wch", "set": s, "target": "fresh", "missing": None}], ["live", "fresh"]))
+            out.append(([{"do": "new", "set": s, "how": how}, {"do": "strrep", "set": s, "target": "fresh"}], ["live", "fresh"]))
+        out.append(([{"do": "strrep", "set": s, "target": "live"}], ["live"]))
+        out.append(([{"do": "str", "set": s, "target": "live"}], ["live"]))
+        tab = [sym for _, sym, _ in ex.elements if ex.element_text(s, sym) is not None]
+        for arg, u in ((tab[0], "pm"), (tab[len(tab) // 2], "bohr"), (next(iter(ex.rows[s])), "angstrom")):
+            out.append(([{"do": "datum", "set": s, "target": "live", "arg": arg, "units": u}], ["live"]))
+    out.append(([{"do": "conn", "symbols": ["H", "C", "Fe", "X", "U", "Ru", "Og", "Xx", "kr84", "D"], "spacing": 2.0, "threshold": 1.2}], ["live"]))
+    out.append(([{"do": "pt_header"}], ["live"]))
+    out.append(([{"do": "const_repr"}], ["live"]))
+    for c in ("CODATA2014", "CODATA2018"):
+        out.append(([{"do": "const_header", "context": c}], ["live"]))
+    return out
+
+
+def seq_getseq(rng, ex: Expect):
+    """The same few arguments looked up over and over with ALL option combinations in random order."""
+    untab = {s: [e for e in ex.elements if ex.element_text(s, e[1]) is None] for s in SETS}
+    tab = {s: [e for e in ex.elements if ex.element_text(s, e[1]) is not None] for s in SETS}
+    picks = []  # (arg, expect per set)
+    for s in SETS:
+        for pool, n in ((untab[s], 3), (tab[s], 3)):
+            for z, sym, name in rng.sample(pool, min(n, len(pool))):
+                picks.append((seq_alias(rng, ex, z, sym, name), ("element", sym)))
+                picks.append((sym, ("element", sym)))
+    generic = sorted({k.split("_")[0] for k in ex.rows["c"] if "_" in k})
+    for sym in rng.sample(generic, min(2, len(generic))):
+        picks.append((sym, ("element", sym)))
+    picks.append((rng.choice(["D", "T", "d", "t"]), ("element", "H")))
+    steps = []
+    for arg, expect in picks:
+        for s in SETS:
+            for rt in (False, True):
+                for u in [None] + UNITS:
+                    for ms in (None, seq_fallback(rng)):
+                        steps.append(seq_get(s, "live", arg, expect, rt, u, ms))
+    for s in SETS:
+        labs = [l for l in ex.rows[s] if ex.is_special(s, l)]
+        for lab in rng.sample(labs, min(2, len(labs))):
+            for _ in range(8):
+                rt, u, ms = seq_combo(rng)
+                steps.append(seq_get(s, "live", lab, ("label", lab), rt, u, ms))
+        for a in rng.sample(SEQ_NONELEMENTS, 3):
+            if isinstance(a, str) and a in ex.rows[s]:
+                continue
+            for _ in range(6):
+                rt, u, ms = seq_combo(rng)
+                steps.append(seq_get(s, "live", a, ("nonelement", None), rt, u, ms))
+    rng.shuffle(steps)
+    return steps + seq_keys(["live"])
+
+
+def gen_episodes(ctx: Ctx, ex: Expect):
+    """-> list of (family, steps)"""
+    rng = ctx.rng
+    eps = [("S:no call before (live and secondary instance)", seq_sweep(rng, ex, ["live", "fresh"]) + seq_keys(["live", "fresh"]))]
+    for setup, targets in seq_all_disturbers(ex):
+        eps.append(("S:after one " + setup[-1]["do"], list(setup) + seq_sweep(rng, ex, targets) + seq_keys(targets)))
+    for _ in range(ctx.scale(20, 200)):
+        steps = []
+        for _ in range(rng.randint(2, 6)):
+            steps.append(seq_disturber(rng, ex))
+            if rng.random() < 0.6:
+                steps += seq_sweep(rng, ex, ["live", "fresh"], frac=0.12)
+        steps += seq_sweep(rng, ex, ["live", "fresh"]) + seq_keys(["live", "fresh"])
+        eps.append(("S:random calls interleaved", steps))
+    for _ in range(ctx.scale(6, 50)):
+        eps.append(("S:repeated lookups, varied options", seq_getseq(rng, ex)))
+    return eps
+
+
+def seq_shrink(ctx: Ctx, impl: Impl, ex: Expect, steps, i, kind):
+    """Smallest prefix-subsequence of steps[:i] after which steps[i] still violates clause `kind`."""
+    probe = steps[i]
+
+    def fails(pre):
+        recs = run_forked(ctx, impl, ex, [list(pre) + [probe]], jobs=1)[0]
+        last = [r for r in recs if r["i"] == len(pre)]
+        return bool(last) and any(b[0] == kind for b in last[0].get("bad", []))
+
+    if fails([]):
+        return [probe]
+    pre = steps[:i]
+    calls = [s for s in pre if s["do"] not in ("get", "keys")]
+    if calls and len(calls) < len(pre) and fails(calls):
+        pre = calls
+    if len(pre) >= 2:
+        pre = common.shrink_list(pre, fails, max_steps=60)
+    return list(pre) + [probe]
+
+
+def seq_signature(st):
+    return ",".join(f"{k}={st[k]}" for k in sorted(st) if k != "do")
+
+
+def digest_episode(impl: Impl, out: Outcome, family, steps, recs, model_lines, shrinker=None, budget=None):
+    """Turn the records of one executed sequence into counts, violations and mismatches."""
+    by_i = {r["i"]: r for r in recs}
+    calls = []
+    reported = set()
+    sampled = False
+    mi = iter(model_lines) if model_lines is not None else None
+    for i, st in enumerate(steps):
+        r = by_i.get(i)
+        if st["do"] not in ("get", "keys"):
+            calls.append(st["do"] + "(" + seq_signature(st) + ")")
+            out.count("S:call:" + st["do"])
+            if r is not None and "raised" in r:
+                out.count("S:call raised:" + st["do"])
+                out.notes.append(f"non-lookup call {calls[-1]} raised {r['raised']} (not a C17 clause; lookups after it are still checked)")
+            continue
+        ml = next(mi) if mi is not None else None
+        ci = r["ci"]
+        if st["do"] == "keys":
+            out.evaluations += 1
+            out.count("S:keys")
+            if ml is not None and ml != ci and ("mismatch:keys", family) not in reported:
+                reported.add(("mismatch:keys", family))
+                out.mismatches.append(Finding("mismatch", {"op": "seq", "steps": steps[: i + 1]}, observed=ci, expected=ml,
+                                              detail="table keys/order after a call sequence: implementation vs Lean model (whose tables are constants)"))
+            continue
+        out.evaluations += 1
+        out.count("stream:" + family)
+        out.count("S:target:" + st.get("target", "live"))
+        out.nontrivial(("S", tuple(calls), st["set"], st.get("target", "live"), repr(st["arg"]), st["rt"], st["units"], st["missing"] is None))
+        if not sampled and calls and ci.startswith("err DataUnavailable"):
+            sampled = True
+            out.sample({"stream": family, "calls before": list(calls), "lookup": {k: v for k, v in st.items() if k != "do"}, "impl": ci, "model": ml}, limit=3)
+        for kind, msg in r["bad"]:
+            if kind in reported:
+                continue
+            reported.add(kind)
+            if budget is not None and budget[0] <= 0:
+                out.count("S:violations not itemised")
+                continue
+            if budget is not None:
+                budget[0] -= 1
+            sub = shrinker(steps, i, kind) if shrinker is not None else steps[: i + 1]
+            if len(sub) == 1 and sub[0].get("target", "live") == "live":
+                c = {k: sub[0][k] for k in ("set", "arg", "rt", "units", "missing", "expect")}
+                out.violations.append(Finding(kind, {"op": "get", **c}, observed=ci, detail=msg))
+            else:
+                ncalls = sum(1 for s in sub[:-1] if s["do"] not in ("get", "keys"))
+                out.violations.append(Finding("oracle:sequence:" + kind.split(":", 1)[1], {"op": "seq", "steps": sub}, observed=ci,
+                                              detail=f"{msg} — as the last call of a sequence of {len(sub)} call(s) ({ncalls} of them not lookups) in one fresh process"))
+        if ml is not None and ml != ci and "mismatch" not in reported:
+            reported.add("mismatch")
+            out.mismatches.append(Finding("mismatch", {"op": "seq", "steps": steps[: i + 1]}, observed=ci, expected=ml,
+                                          detail="get after a call sequence: implementation vs Lean model (stateless)"))
+
+
+def seq_model_lines(impl: Impl, steps):
+    return [get_line(impl, st) if st["do"] == "get" else f"keys {st['set']}" for st in steps if st["do"] in ("get", "keys")]
+
+
 def run(ctx: Ctx) -> Outcome:
     out = Outcome()
     impl, ex = Impl(), Expect()
     gets = list(gen_get_cases(ctx, ex))
     tous = list(gen_tou_cases(ctx))
     mks = [(k, v, n) for k, v in MK for n in (True, False)]
+    # S first: this process has not made a single lookup yet, so every fork of it is a pristine process image
+    episodes = gen_episodes(ctx, ex)
+    seq_recs = run_forked(ctx, impl, ex, [st for _, st in episodes])
+    # oracle findings are shrunk NOW, while this process is still pristine (the model is consulted afterwards)
+    shrunk = {}
+
+    def shrink_now(steps, i, kind):
+        shrunk[(id(steps), i, kind)] = seq_shrink(ctx, impl, ex, steps, i, kind)
+        return shrunk[(id(steps), i, kind)]
+
+    pre_budget = [SEQ_ITEMISED]
+    for (family, steps), recs in zip(episodes, seq_recs):
+        if pre_budget[0] > 0 and any(r.get("bad") for r in recs):
+            digest_episode(impl, Outcome(), family, steps, recs, None, shrinker=shrink_now, budget=pre_budget)
+    seq_lines = [seq_model_lines(impl, st) for _, st in episodes]
     lines = [get_line(impl, c) for _, c in gets] + [tou_line(impl, c) for c in tous] + [f"mk {k} {1 if n else 0}" for k, _, n in mks] + [f"keys {s}" for s in SETS]
-    model = ctx.run_model(DRIVER, lines) if ctx.model_available else [None] * len(lines)
+    flat = [l for ls in seq_lines for l in ls]
+    model = ctx.run_model(DRIVER, flat + lines) if ctx.model_available else [None] * (len(flat) + len(lines))
     it = iter(model)
+    budget = [SEQ_ITEMISED]
+    for (family, steps), recs, ls in zip(episodes, seq_recs, seq_lines):
+        digest_episode(impl, out, family, steps, recs, [next(it) for _ in ls],
+                       shrinker=lambda st, i, kind: shrunk.get((id(st), i, kind), st[: i + 1]), budget=budget)
+    out.notes.append(f"call sequences: {len(episodes)} sequences, each executed in its own pristine fork; "
+                     f"{sum(1 for _, st in episodes for x in st if x['do'] not in ('get', 'keys'))} non-lookup calls, {len(flat)} checked lookups / key listings")
     for tag, case in gets:
         check_get(impl, ex, out, tag, case, next(it))
     for case in tous:
@@ -619,6 +1088,14 @@ def replay(ctx: Ctx, case) -> Outcome:
     elif op == "keys":
         ml = ctx.run_model(DRIVER, [f"keys {case['set']}"])[0] if ctx.model_available else None
         check_keys(impl, ex, out, case["set"], ml)
+    elif op == "seq":
+        # this replay process is itself pristine: run the recorded calls here, in order, then consult the model
+        steps = case["steps"]
+        recs = exec_steps(impl, ex, steps)
+        ml = ctx.run_model(DRIVER, seq_model_lines(impl, steps)) if ctx.model_available else None
+        digest_episode(impl, out, "replay:sequence", steps, recs, ml)
+        last = [r for r in recs if r["i"] == len(steps) - 1]
+        out.sample({"calls": [st["do"] + "(" + seq_signature(st) + ")" for st in steps], "impl (last call)": last[0].get("ci") if last else None})
     else:
         return run(ctx)
     return out
